@@ -137,17 +137,100 @@ def dtype_runs(chk, stats):
     return n
 
 
+def tiny_space_runs(chk, stats):
+    """Alignment and truthfulness with the REAL built-in samplers on search spaces that are (nearly) exhausted: repeated
+    vectors inside a batch and against the history are then unavoidable, and every record must still grow by batch_size rows
+    per batch, each row holding one model run per ensemble member on exactly that vector."""
+    import contextlib
+    import io
+    import warnings
+
+    import numpy as np
+    from black_it.calibrator import Calibrator
+    from black_it.loss_functions.minkowski import MinkowskiLoss
+
+    from props import real_lineups as rl
+
+    rng = chk.rng
+    n = 0
+    for li in range(10 if chk.tier == "quick" else 80):
+        npts = rng.randint(2, 6)
+        dims = 1 if li % 3 else 2
+        k = rng.randint(1, 3)
+        kinds = [(rng.choice(["uniform", "uniform", "halton", "rseq"]), rng.randint(1, 3)) for _ in range(k)]
+        E = rng.randint(1, 2)
+        calls = []
+
+        def model(theta, N, seed, calls=calls):  # noqa: N803
+            out = np.random.default_rng(seed).random((N, 1)) + float(theta[0])
+            calls.append((np.array(theta, dtype=float).copy(), out.copy()))
+            return out
+
+        real = np.linspace(0.0, 1.0, 5).reshape(5, 1)
+        samplers = [rl.make_sampler(kd, bs, 3 + i) for i, (kd, bs) in enumerate(kinds)]
+        case = {"tiny": {"npts": npts, "dims": dims, "kinds": kinds, "E": E}}
+        with contextlib.redirect_stdout(io.StringIO()):
+            cal = Calibrator(loss_function=MinkowskiLoss(), real_data=real, model=model,
+                             parameters_bounds=[[0.0] * dims, [float(npts - 1)] + [1.0] * (dims - 1)], parameters_precision=[1.0] * dims,
+                             ensemble_size=E, samplers=samplers, verbose=False, random_state=rng.below(2**31), n_jobs=1)
+        exp_b, exp_m = [], []
+        nb = min(8, 2 * npts)
+        for b in range(nb):
+            with contextlib.redirect_stdout(io.StringIO()), warnings.catch_warnings():
+                warnings.simplefilter("ignore")
+                cal.calibrate(1)
+            kd, bs = kinds[b % k]
+            exp_b += [b] * bs
+            exp_m += [cal.samplers_id_table[type(samplers[b % k]).__name__]] * bs
+            n += 1
+            stats["tiny:batches"] += 1
+            rows = len(exp_b)
+            lens = {"params": len(cal.params_samp), "losses": len(cal.losses_samp), "series": len(cal.series_samp),
+                    "bnums": len(cal.batch_num_samp), "methods": len(cal.method_samp), "counter": int(cal.n_sampled_params)}
+            why = None
+            if set(lens.values()) != {rows}:
+                why = ("aligned", f"after batch {b} (sampler {kd}, batch_size {bs}) the records have lengths {lens}, expected {rows}")
+            elif [int(x) for x in cal.batch_num_samp] != exp_b or [int(x) for x in cal.method_samp] != exp_m:
+                why = ("labels", f"batch / sampler labels {list(map(int, cal.batch_num_samp))} / {list(map(int, cal.method_samp))}, "
+                                 f"expected {exp_b} / {exp_m}")
+            elif len(calls) != rows * E:
+                why = ("series-of-param", f"{rows} rows x ensemble {E} recorded but the model was run {len(calls)} times")
+            else:
+                for i in range(rows):
+                    for e in range(E):
+                        th, out = calls[i * E + e]
+                        if th.tobytes() != np.asarray(cal.params_samp[i], dtype=float).tobytes() or \
+                                cal.series_samp[i, e].tobytes() != out.tobytes():
+                            why = ("series-of-param", f"row {i} member {e}: recorded vector {cal.params_samp[i]} / series are not those "
+                                                      f"of model run number {i * E + e} (vector {th})")
+                            break
+                    if why:
+                        break
+                    if float(cal.losses_samp[i]) != float(MinkowskiLoss().compute_loss(cal.series_samp[i], real)):
+                        why = ("loss-of-series", f"row {i}: recorded loss is not the loss of the recorded series")
+                        break
+            if why:
+                stats["tiny:duplicate rows"] += 0
+                chk.violation({"kind": "oracle", "clause": why[0], "with": "tiny-space"},
+                              {"failed": f"oracle:{why[0]}", "detail": f"grid of {npts} points x {dims} dims, line-up {kinds}, ensemble {E}: {why[1]}",
+                               "case": case})
+                break
+        stats["tiny:rows repeated in history"] += int(len(cal.params_samp) - len({r.tobytes() for r in cal.params_samp}))
+    return n
+
+
 def run(chk, replay=None):
     chk.proof_gate()
     if replay:
         cases = [json.loads(open(replay).read())["case"]]
-        if "extreme" in cases[0] or "dtype" in cases[0]:
+        if "extreme" in cases[0] or "dtype" in cases[0] or "tiny" in cases[0]:
             cases = []
     else:
         cases = gen_cases(chk)
     obs, bad, stats, keys, nontriv = cf.run_traces(chk, cases, cf.oracle_c02, nontrivial, label="C02")
     n_ext = extreme_runs(chk, stats)
     n_ext += dtype_runs(chk, stats)
+    n_ext += tiny_space_runs(chk, stats)
     cov = {
         "evaluations": len(cases) + n_ext, "distinct": len(keys), "distinct_nontrivial": len(nontriv),
         "extreme_value_batches_with_real_samplers": n_ext,
